@@ -6,7 +6,7 @@ PROPERTY = "C01"
 CLAUSES = ["C01.mono", "C01.due", "C01.order", "C01.neg", "C01.noraise"]
 RULE = ("every process program of <= D executed instructions over {return, timeout(0|1|2|0.5), wait/succeed a shared "
         "event, join, interrupt, spawn, raise, timeout(-1)} with 2 initial and <= 4 processes, run to exhaustion or through "
-        "run(until=t) calls (single and chained, also from a negative initial time to exactly 0), plus a variant with delays 2^-40 and 1-2^-40; non-trivial = two occurrences were pending for the same instant when one of them took effect; "
+        "run(until=t) calls (single and chained, also from a negative initial time to exactly 0), plus a variant with delays 2^-40, 1-2^-40 and inf; non-trivial = two occurrences were pending for the same instant when one of them took effect; "
         "distinct = distinct observation logs")
 ASSUMPTIONS = [
     "occurrences are observed black-box: probe callbacks on every event the harness creates, first statement of a body "
@@ -33,7 +33,7 @@ def plan(tier, seed):
 
 def execute(ch, cfg):
     from onl.sim import Environment
-    ops = [o for o in OPS if o != ("T", 0.5)] if cfg.get("ints") else OPS if not cfg.get("tiny") else [o for o in OPS if o not in (("T", 2), ("T", 0.5))] + [("T", 2.0 ** -40), ("T", 1 - 2.0 ** -40)]
+    ops = [o for o in OPS if o != ("T", 0.5)] if cfg.get("ints") else OPS if not cfg.get("tiny") else [o for o in OPS if o not in (("T", 2), ("T", 0.5))] + [("T", 2.0 ** -40), ("T", 1 - 2.0 ** -40), ("T", float("inf"))]
     k = KC.K(ch, ops, cfg["depth"], stop_at=cfg["stop"], reaction=False, env=Environment(cfg.get("init", 0))).run()
     res = Result()
     res.digest = k.digest()
